@@ -435,3 +435,14 @@ func GOMAXPROCS(n int) int { return SimProcs }
 
 // NumCPU replaces runtime.NumCPU.
 func NumCPU() int { return SimProcs }
+
+// SimEpoch is the simulated wall-clock time (ns since 1970) at step 0 of this
+// process: a per-process configuration value chosen by the driver
+// (VERIF_SIM_EPOCH), so that different worker processes live at different
+// hours, weekdays and months.
+var SimEpoch = func() int64 {
+	if v, err := strconv.ParseInt(os.Getenv("VERIF_SIM_EPOCH"), 10, 64); err == nil && v > 0 {
+		return v
+	}
+	return 1700000000e9
+}()
